@@ -54,10 +54,6 @@ func pathOf(lhs string) string {
 // dstLeaves enumerates the destination paths reachable by descending by-value struct fields;
 // members of imported types that the package cannot see are returned separately.
 func dstLeaves(t types.Type, prefix, local string, leaves, invisible *[]string) {
-	owner := ""
-	if n, ok := t.(*types.Named); ok && n.Obj().Pkg() != nil {
-		owner = n.Obj().Pkg().Path()
-	}
 	st := t.Underlying().(*types.Struct)
 	for i := 0; i < st.NumFields(); i++ {
 		f := st.Field(i)
@@ -65,7 +61,9 @@ func dstLeaves(t types.Type, prefix, local string, leaves, invisible *[]string) 
 		if prefix != "" {
 			p = prefix + "." + f.Name()
 		}
-		if owner != "" && owner != local && !ast.IsExported(f.Name()) {
+		// Go's rule: an unexported field is visible in the package that declares it only (for a
+		// member of an anonymous struct that is the package that wrote the struct type down)
+		if f.Pkg() != nil && f.Pkg().Path() != local && !ast.IsExported(f.Name()) {
 			*invisible = append(*invisible, p)
 			continue
 		}
@@ -380,31 +378,40 @@ func shapesHarness(skeleton string, argNames []string) {
 	// :literal / :conv / :map address their destination path case-SENSITIVELY whatever the case rule
 	// says (README: "Other notations like :map and :conv retain case-sensitive matches"): a value
 	// that only a notation can supply appears on exactly the path the notation names
+	litPaths, convPaths, extraPaths := map[string][]string{}, map[string][]string{}, []string{}
 	for _, nt := range nots {
-		for _, l := range lines {
-			if l.kind != "assign" {
-				continue
+		switch nt.kind {
+		case ":literal":
+			t := strings.Join(nt.args[1:], " ")
+			litPaths[t] = append(litPaths[t], nt.args[0])
+		case ":conv":
+			d := nt.args[1]
+			if len(nt.args) > 2 {
+				d = nt.args[2]
 			}
-			switch nt.kind {
-			case ":literal":
-				if l.rhs == strings.Join(nt.args[1:], " ") {
-					vrt.AssertMsg("literal-only-on-the-path-it-names", l.path == nt.args[0], l.path+" = "+l.rhs+" by :literal "+nt.args[0])
-				}
-			case ":conv":
-				d := nt.args[1]
-				if len(nt.args) > 2 {
-					d = nt.args[2]
-				}
-				if strings.HasPrefix(l.rhs, nt.args[0]+"(") {
-					vrt.AssertMsg("converter-only-on-the-path-it-names", l.path == d, l.path+" = "+l.rhs+" by :conv "+strings.Join(nt.args, " "))
-				}
-			case ":map":
-				// (only for a source no destination field is named after, so that the default
-				// name match cannot have produced the same line)
-				if nt.args[0] == "Extra" && l.rhs == "src.Extra" {
-					vrt.AssertMsg("mapped-source-only-on-the-path-it-names", l.path == nt.args[1], l.path+" = "+l.rhs+" by :map "+strings.Join(nt.args, " "))
-				}
+			convPaths[nt.args[0]] = append(convPaths[nt.args[0]], d)
+		case ":map":
+			// (only for a source no destination field is named after, so that the default name
+			// match cannot have produced the same line)
+			if nt.args[0] == "Extra" {
+				extraPaths = append(extraPaths, nt.args[1])
 			}
+		}
+	}
+	for _, l := range lines {
+		if l.kind != "assign" {
+			continue
+		}
+		if ps, ok := litPaths[l.rhs]; ok {
+			vrt.AssertMsg("literal-only-on-a-path-it-names", inList(ps, l.path), l.path+" = "+l.rhs)
+		}
+		for fn, ps := range convPaths {
+			if strings.HasPrefix(l.rhs, fn+"(") {
+				vrt.AssertMsg("converter-only-on-a-path-it-names", inList(ps, l.path), l.path+" = "+l.rhs)
+			}
+		}
+		if l.rhs == "src.Extra" && len(extraPaths) > 0 {
+			vrt.AssertMsg("mapped-source-only-on-a-path-it-names", inList(extraPaths, l.path), l.path+" = "+l.rhs)
 		}
 	}
 	text := generator.NewGenerator(gmodel.Code{}).FuncToString(fn)
